@@ -476,6 +476,77 @@ func regCfg(repo string) (closeAtomic bool) {
 	return compareSpan > 0 && compareSpan == deleteSpan
 }
 
+// ---- hub: removal of a service against an establishment under way
+func dialCfg(repo string) (recheck, exclusive bool) {
+	cf := parse(repo, "hub/hub_connections.go")
+	pf := parse(repo, "hub/hub_pairing.go")
+	isMux := func(st ast.Stmt, method string) bool {
+		es, ok := st.(*ast.ExprStmt)
+		if !ok {
+			return false
+		}
+		c, ok := es.X.(*ast.CallExpr)
+		if !ok {
+			return false
+		}
+		se, ok := c.Fun.(*ast.SelectorExpr)
+		return ok && se.Sel.Name == method && sel(se.X) == "muxConnect"
+	}
+	// connectFoundService: after taking the connect mutex and before the keep decision, an if on Trusted() that returns
+	if fd := funcDecl(cf, "connectFoundService"); fd != nil {
+		locked := false
+		for _, st := range fd.Body.List {
+			if isMux(st, "Lock") {
+				locked = true
+				continue
+			}
+			if containsCall(st, "keepThisConnection") {
+				break
+			}
+			if ifs, ok := st.(*ast.IfStmt); ok && locked && containsCall(ifs.Cond, "Trusted") && mentions(ifs.Cond, "ConnectionStateQueued") {
+				for _, b := range ifs.Body.List {
+					if _, ok := b.(*ast.ReturnStmt); ok {
+						recheck = true
+					}
+				}
+			}
+		}
+	}
+	// UnregisterRemoteSKI / CancelPairingWithSKI: SetTrusted(false) and the lookup of the connection inside one
+	// muxConnect section of the function body
+	section := func(name string) bool {
+		fd := funcDecl(pf, name)
+		if fd == nil {
+			return false
+		}
+		locked, marks, looks := false, false, false
+		for _, st := range fd.Body.List {
+			if isMux(st, "Lock") {
+				locked, marks, looks = true, false, false
+				continue
+			}
+			if isMux(st, "Unlock") {
+				if marks && looks {
+					return true
+				}
+				locked = false
+				continue
+			}
+			if locked {
+				if containsCall(st, "SetTrusted") {
+					marks = true
+				}
+				if containsCall(st, "connectionForSKI") {
+					looks = true
+				}
+			}
+		}
+		return false
+	}
+	exclusive = section("UnregisterRemoteSKI") && section("CancelPairingWithSKI")
+	return
+}
+
 // every call of `name` inside fd is a plain call: at least one exists and none sits under a go statement, a defer or a
 // function literal
 func plainCalls(fd *ast.FuncDecl, name string) bool {
@@ -1008,6 +1079,10 @@ func main() {
 	{
 		a, b := pipeCfg(*repo)
 		files["PipeFacts.lean"] = fmt.Sprintf("/- GENERATED by /verif/extract from /repo — do not edit. -/\nimport ShipVerif.Model.Pipe\nnamespace ShipVerif.Generated\n\n/-- ship/handshake.go approveHandshake, ship/connection.go HandleIncomingWebsocketMessage, ws/websocket.go readShipPump: design facts -/\ndef pipeCfg : ShipVerif.Pipe.Cfg := { flushSync := %v, deliverSync := %v }\n\nend ShipVerif.Generated\n", a, b)
+	}
+	{
+		a, b := dialCfg(*repo)
+		files["DialFacts.lean"] = fmt.Sprintf("/- GENERATED by /verif/extract from /repo — do not edit. -/\nimport ShipVerif.Model.Dial\nnamespace ShipVerif.Generated\n\n/-- hub/hub_connections.go connectFoundService, hub/hub_pairing.go UnregisterRemoteSKI / CancelPairingWithSKI: design facts -/\ndef dialCfg : ShipVerif.Dial.Cfg := { recheck := %v, exclusive := %v }\n\nend ShipVerif.Generated\n", a, b)
 	}
 	files["RegFacts.lean"] = fmt.Sprintf("/- GENERATED by /verif/extract from /repo — do not edit. -/\nimport ShipVerif.Model.Reg\nnamespace ShipVerif.Generated\n\n/-- hub/hub_shipconnection.go HandleConnectionClosed: design facts -/\ndef regCfg : ShipVerif.Reg.Cfg := { closeAtomic := %v }\n\nend ShipVerif.Generated\n", regCfg(*repo))
 	files["AsyncFacts.lean"] = fmt.Sprintf("/- GENERATED by /verif/extract from /repo — do not edit. -/\nimport ShipVerif.Model.View\nnamespace ShipVerif.Generated\n\n/-- mdns/mdns.go: reports are delivered under a mutex and dropped when a newer snapshot was delivered -/\ndef mdnsReportCfg : ShipVerif.Async.Cfg := { guarded := %v }\n\nend ShipVerif.Generated\n", mdnsReportGuarded(*repo))
